@@ -185,7 +185,12 @@ def oracle(c, io, rng_seed):
             v = F(cj['off']) + sum(F(q) * sigma[vid] for vid, q in cj['co'])
             if v != 0:
                 got[r] = v
-        if got != ref[2]:
+        # the implementation computes coefficients in float64: results that need more than 53 bits (products of the tiny
+        # coefficients the generator plants) may differ from the exact value by rounding, never by more than ~1e-14 of the
+        # magnitudes involved; a dropped or misplaced term differs by at least 1e-9 of them
+        size = 1 + max([abs(v) for v in list(got.values()) + list(ref[2].values())] + [0])
+        keys = set(got) | set(ref[2])
+        if any(abs(got.get(k, F(0)) - ref[2].get(k, F(0))) > F(1, 10 ** 13) * size for k in keys):
             return ('with Variable values %s the result evaluates to %s but computing on the substituted operands gives %s'
                     % ([str(s) for s in sigma], {str(tuple(map(str, k))): str(v) for k, v in got.items()},
                        {str(tuple(map(str, k))): str(v) for k, v in ref[2].items()}))
@@ -226,8 +231,10 @@ def run(ctx):
                                else 'nan' if all(v is None for v in c['stored']) else 'mixed'))
         if c.get('two_symbolic'):
             ctx.count('malformed:two_symbolic_factors')
+    # exponent rows and the structure of every coefficient are compared exactly; coefficient VALUES up to float64 rounding
+    # (1e-13 relative): the tiny coefficients the generator plants make some exact results need more than 53 bits
     res = correspond(ctx, 'symtree', cases, impl_tree, line_tree,
-                     nontrivial=lambda c, o: st.tree_size(c['t']) >= 3)
+                     nontrivial=lambda c, o: st.tree_size(c['t']) >= 3, equal=common.tolerant_equal)
     for i, (c, io, mo) in enumerate(res):
         why = oracle(c, io, ctx.seed * 7919 + i)
         if why:
